@@ -34,6 +34,8 @@ class Contract:
         self.min_obligations = 1
         self.assumes = []             # (text) assumptions used by this contract (reported)
         self.env = {}                 # constants visible to spec expressions
+        self.body_slice = None        # callable(list of stmts) -> (kept stmts, dropped stmts)
+        self.dropped_scan = None      # callable(dropped stmts) -> None | reason (syntactic frame of the rest)
 
     # builder API ------------------------------------------------------------
     def req(self, expr):
@@ -318,22 +320,34 @@ def _exists(E, s, args, kw):
 _count_cache = {}
 
 
+def count_instance(E, entry, point):
+    """definitional axiom of a prefix-count function at one point"""
+    f, lo_t, body, K = entry
+    ax = z3.If(point <= lo_t, f(point) == 0,
+               f(point) == f(point - 1) + z3.If(z3.substitute(body, (K, point - 1)), 1, 0))
+    E.add_axiom(ax)
+
+
 def _count(E, s, args, kw):
-    """count(lo, hi, lambda k: P) = #{k in [lo,hi) : P(k)} as a recursive function"""
+    """count(lo, hi, lambda k: P) = #{k in [lo,hi) : P(k)}: an uninterpreted function whose
+    defining equations are instantiated explicitly at every upper bound that is mentioned
+    (and at bound-1), never left to quantifier heuristics"""
     lo, hi, lam = args
     K = z3.Int("K!count")
     body = _lam_formula(E, s, lam, K)
     lo_t = int_term(lo)
     key = (lo_t.sexpr(), body.sexpr())
     if key not in _count_cache:
-        f = z3.RecFunction(fresh_name("count"), z3.IntSort(), z3.IntSort())
-        X = z3.Int(fresh_name("x"))
-        step = z3.substitute(body, (K, X - 1))
-        z3.RecAddDefinition(f, [X], z3.If(X <= lo_t, 0, f(X - 1) + z3.If(step, 1, 0)))
-        _count_cache[key] = f
-        E.rec_functions.append((f, lo_t, body))
-    f = _count_cache[key]
-    return [(s, mk_int(f(int_term(hi))))]
+        f = z3.Function(fresh_name("count"), z3.IntSort(), z3.IntSort())
+        _count_cache[key] = (f, lo_t, body, K)
+        E.rec_functions.append(_count_cache[key])
+    entry = _count_cache[key]
+    f = entry[0]
+    h = z3.simplify(int_term(hi))
+    count_instance(E, entry, h)
+    count_instance(E, entry, z3.simplify(h - 1))
+    E.add_axiom(f(h) >= 0)
+    return [(s, mk_int(f(h)))]
 
 
 def _ite(E, s, args, kw):
@@ -416,7 +430,21 @@ def verify(E, contract, variant=None, setup=None):
         entry.frames.append(dict(frame))
         E.entry_states.append(entry)
         try:
-            results = E.run_body(st, fref, dict(frame))
+            run_ref = fref
+            if contract.body_slice is not None:
+                import copy as _copy
+                kept, dropped = contract.body_slice(list(fref.node.body))
+                node2 = _copy.copy(fref.node)
+                node2.body = kept
+                run_ref = FuncRef(fref.module, fref.qualname, node2, fref.cls)
+                res.notes.append(f"{contract.key}: verified text is the first {len(kept)} top-level statements "
+                                 f"of the body (mechanical slice, lines {kept[0].lineno}-{kept[-1].end_lineno}); "
+                                 f"the {len(dropped)} statements after it are covered by a syntactic frame scan only")
+                if contract.dropped_scan is not None:
+                    why = contract.dropped_scan(dropped)
+                    E.oblige(st, "slice.rest_frame", z3.BoolVal(why is None), kind="frame",
+                             meta={"reason": why})
+            results = E.run_body(st, run_ref, dict(frame))
             for s, v in results:
                 res.paths += 1
                 E.paths_explored += 1
@@ -500,6 +528,8 @@ def new_engine(repo=None):
     E.ghost_havoc = {}
     E.slice_models = {}
     E.seq_models = {}
+    E.index_models = {}
+    E.setitem_models = {}
     E.spec_env = []
     E.entry_states = []
     E.rec_functions = []
